@@ -199,7 +199,7 @@ func TestC02Gating(t *testing.T) {
 
 func TestC03TrafficFollowsPods(t *testing.T) {
 	runSpec(t, e1Spec{check: "c03-traffic-follows-pods", props: []string{"C03"},
-		bias: sim.Bias{MaxActions: 150, ForceProvider: true, SettlePct: 3, UserWeights: map[string]int{sim.UserApprove: 10, sim.UserJump: 5, sim.UserEditStep: 2, sim.UserScale: 1, sim.UserPause: 1, sim.UserResume: 2}},
+		bias: sim.Bias{MaxActions: 150, ForceProvider: true, SettlePct: 3, JumpBursts: 4, UserWeights: map[string]int{sim.UserApprove: 10, sim.UserJump: 5, sim.UserEditStep: 2, sim.UserScale: 1, sim.UserPause: 1, sim.UserResume: 2}},
 		nt: func(c e1Case, r *sim.Run, st *runStats) bool {
 			n := 0
 			for _, s := range c.S.Steps {
